@@ -34,8 +34,11 @@ type action struct {
 	entry string // transmit: entry point
 	idx   int    // marker of transmit / handler reply
 	big   bool
-	cond  string
-	errk  string // handlererror / readfail: shape of the error (plain wrapeof eof wrapunexpected)
+	// transmit: the call's context ends while the call is in progress (after it
+	// has started reading its payload, before anything is written)
+	cancelMid bool
+	cond      string
+	errk      string // handlererror / readfail: shape of the error (plain wrapeof eof wrapunexpected)
 
 	// results
 	err      error
@@ -50,6 +53,34 @@ type tcase struct {
 }
 
 var entries = []string{"Send", "SendElement", "Encode", "EncodeElement", "TokenWriter", "SendIQ", "SendIQElement", "EncodeIQ", "SendMessage", "EncodeMessageElement", "SendPresence", "SendPresenceElement"}
+
+// entries whose payload is a token reader (the harness can act while it is read)
+var readerEntries = map[string]bool{"Send": true, "SendElement": true, "SendIQ": true, "SendIQElement": true, "SendMessage": true, "SendPresence": true, "SendPresenceElement": true}
+
+// cancelReader ends the call's context when the library has read the payload
+// to its end, and waits until the library's watcher has acted on that (it expires
+// the write deadline and restores it) so that the write itself is untouched.
+type cancelReader struct {
+	r      xml.TokenReader
+	cancel context.CancelFunc
+	conn   *wire.Conn
+	done   bool
+}
+
+func (c *cancelReader) Token() (xml.Token, error) {
+	tok, err := c.r.Token()
+	if err == io.EOF && !c.done {
+		// the whole payload has been handed over, nothing has been flushed yet:
+		// every entry point has its context watcher armed by now
+		c.done = true
+		n := c.conn.WriteDeadlineCalls()
+		c.cancel()
+		for i := 0; i < 400 && c.conn.WriteDeadlineCalls() < n+2; i++ {
+			time.Sleep(50 * time.Microsecond)
+		}
+	}
+	return tok, err
+}
 
 func genCase(t *rapid.T) tcase {
 	tc := tcase{s2s: rapid.Bool().Draw(t, "s2s"), serve: rapid.IntRange(0, 3).Draw(t, "serve") > 0}
@@ -70,6 +101,7 @@ func genCase(t *rapid.T) tcase {
 				ac.idx = idx
 				idx++
 				ac.big = rapid.IntRange(0, 4).Draw(t, "big") == 0
+				ac.cancelMid = readerEntries[ac.entry] && rapid.IntRange(0, 3).Draw(t, "cancelMid") == 0
 			case "handlerreply":
 				ac.idx = idx
 				idx++
@@ -99,7 +131,7 @@ func (tc tcase) String() string {
 		for _, a := range st {
 			switch a.kind {
 			case "transmit":
-				fmt.Fprintf(&sb, " %s#%d(big=%v)", a.entry, a.idx, a.big)
+				fmt.Fprintf(&sb, " %s#%d(big=%v context-ends-mid-call=%v)", a.entry, a.idx, a.big, a.cancelMid)
 			case "handlerreply":
 				fmt.Fprintf(&sb, " handlerreply#%d", a.idx)
 			case "peererror":
@@ -141,8 +173,15 @@ func body(big bool) string {
 	return "x"
 }
 
-func (a *action) transmit(s *xmpp.Session, ns string) {
+func (a *action) transmit(s *xmpp.Session, ns string, conn *wire.Conn) {
 	ctx := context.Background()
+	rd := func(n *xt.Node) xml.TokenReader { return n.Reader() }
+	if a.cancelMid {
+		cctx, cancel := context.WithCancel(ctx)
+		defer cancel()
+		ctx = cctx
+		rd = func(n *xt.Node) xml.TokenReader { return &cancelReader{r: n.Reader(), cancel: cancel, conn: conn} }
+	}
 	m := strconv.Itoa(a.idx)
 	el := func(local, typ string) *xt.Node {
 		n := xt.El(ns, local, []xml.Attr{xt.A("m", m), xt.A("id", "i"+m)}, xt.El("urn:verif:c10", "p", nil, xt.Tx(body(a.big))))
@@ -156,9 +195,9 @@ func (a *action) transmit(s *xmpp.Session, ns string) {
 		var resp xmlstream.TokenReadCloser
 		switch a.entry {
 		case "Send":
-			a.err = s.Send(ctx, xt.El("urn:verif:c10", "e", []xml.Attr{xt.A("m", m)}, xt.Tx(body(a.big))).Reader())
+			a.err = s.Send(ctx, rd(xt.El("urn:verif:c10", "e", []xml.Attr{xt.A("m", m)}, xt.Tx(body(a.big)))))
 		case "SendElement":
-			a.err = s.SendElement(ctx, xt.Tx(body(a.big)).Reader(), xml.StartElement{Name: xml.Name{Space: "urn:verif:c10", Local: "e"}, Attr: []xml.Attr{xt.A("m", m)}})
+			a.err = s.SendElement(ctx, rd(xt.Tx(body(a.big))), xml.StartElement{Name: xml.Name{Space: "urn:verif:c10", Local: "e"}, Attr: []xml.Attr{xt.A("m", m)}})
 		case "Encode":
 			a.err = s.Encode(ctx, sval{XMLName: xml.Name{Space: "urn:verif:c10", Local: "e"}, M: m, Text: body(a.big)})
 		case "EncodeElement":
@@ -170,19 +209,19 @@ func (a *action) transmit(s *xmpp.Session, ns string) {
 				a.err = e
 			}
 		case "SendIQ":
-			resp, a.err = s.SendIQ(ctx, el("iq", "result").Reader())
+			resp, a.err = s.SendIQ(ctx, rd(el("iq", "result")))
 		case "SendIQElement":
-			resp, a.err = s.SendIQElement(ctx, pay.Reader(), stanza.IQ{Type: stanza.ErrorIQ, ID: "i" + m})
+			resp, a.err = s.SendIQElement(ctx, rd(pay), stanza.IQ{Type: stanza.ErrorIQ, ID: "i" + m})
 		case "EncodeIQ":
 			resp, a.err = s.EncodeIQ(ctx, sval{XMLName: xml.Name{Space: ns, Local: "iq"}, M: m, ID: "i" + m, Type: "result", Text: body(a.big)})
 		case "SendMessage":
-			resp, a.err = s.SendMessage(ctx, el("message", "error").Reader())
+			resp, a.err = s.SendMessage(ctx, rd(el("message", "error")))
 		case "EncodeMessageElement":
 			resp, a.err = s.EncodeMessageElement(ctx, sval{XMLName: xml.Name{Space: "urn:verif:c10", Local: "p"}, M: m, Text: body(a.big)}, stanza.Message{Type: stanza.ErrorMessage, ID: "i" + m})
 		case "SendPresence":
-			resp, a.err = s.SendPresence(ctx, el("presence", "error").Reader())
+			resp, a.err = s.SendPresence(ctx, rd(el("presence", "error")))
 		case "SendPresenceElement":
-			resp, a.err = s.SendPresenceElement(ctx, pay.Reader(), stanza.Presence{Type: stanza.ErrorPresence, ID: "i" + m})
+			resp, a.err = s.SendPresenceElement(ctx, rd(pay), stanza.Presence{Type: stanza.ErrorPresence, ID: "i" + m})
 		}
 		if resp != nil {
 			_ = resp.Close()
@@ -333,7 +372,7 @@ func check(t interface {
 				wg.Add(1)
 				go func() {
 					defer wg.Done()
-					a.transmit(s, ns)
+					a.transmit(s, ns, sv.Conn)
 				}()
 			case "peerclose":
 				if inputTerminated == "" {
@@ -484,8 +523,13 @@ func check(t interface {
 		if a.err == nil && !onWire[m] {
 			fail("%s #%d returned nil but its element is not on the wire (before the closing tag)", a.entry, a.idx)
 		}
-		if a.err != nil && onWire[m] {
+		if a.err != nil && onWire[m] && !a.cancelMid {
 			fail("%s #%d failed with %v but its complete element is on the wire", a.entry, a.idx, a.err)
+		}
+		if a.cancelMid && a.err != nil && (errors.Is(a.err, context.Canceled) || isTimeout(a.err)) {
+			// the call may report that its context ended; the wire and the
+			// session's closing behaviour are what is asserted for it
+			continue
 		}
 		switch {
 		case tx.afterClose:
@@ -558,7 +602,7 @@ func check(t interface {
 		// transmit after Serve has returned must fail too
 		a := &action{kind: "transmit", entry: "Send", idx: 9999}
 		before := sv.Conn.OutputLen()
-		a.transmit(s, ns)
+		a.transmit(s, ns, sv.Conn)
 		if !errors.Is(a.err, xmpp.ErrOutputStreamClosed) || sv.Conn.OutputLen() != before {
 			fail("Send after Serve returned: err=%v, %d bytes written; want ErrOutputStreamClosed and nothing written", a.err, sv.Conn.OutputLen()-before)
 		}
@@ -573,6 +617,9 @@ func classify(tc tcase) (bool, []string) {
 		stepClose := 0
 		for _, a := range st {
 			classes = append(classes, "action-"+a.kind)
+			if a.cancelMid {
+				classes = append(classes, "transmit-context-ends-mid-call")
+			}
 			if a.kind == "close" {
 				closes++
 				stepClose++
@@ -652,4 +699,9 @@ func TestC10DeadlineRace(t *testing.T) {
 			ev.Failf(t, "iteration %d: Serve returned %v after only %v, before the close deadline (%v) had passed", i, sv.Err(), el, d)
 		}
 	}
+}
+
+func isTimeout(err error) bool {
+	var te interface{ Timeout() bool }
+	return errors.As(err, &te) && te.Timeout()
 }
